@@ -47,10 +47,49 @@ if seeds:
                 print('SELFTEST-MISS property=%s seed=%s (the check does not notice this seeded change)' % (prop, name))
     finally:
         shutil.rmtree(scr, ignore_errors=True)
+# must-pass corpus: behaviour-preserving refactorings (renamed locals, swapped independent
+# statements, equivalent expressions, temporaries, inverted if/else) written by independent
+# agents; the check has to stay quiet on each. A false alarm is reported (SELFTEST-FALSE-ALARM)
+# and recorded; it does not change the exit status of the run on the unchanged tree.
+harm = sorted(d for d in glob.glob(os.path.join(verif, 'harmless', '*')) if os.path.isdir(d)
+              and json.load(open(os.path.join(d, 'meta.json'))).get('property') == prop)
+hres = {'refactorings': 0, 'quiet': 0, 'false_alarms': [], 'not_applicable_to_this_tree': []}
+if harm:
+    scr = tempfile.mkdtemp(prefix='govc_selftest_')
+    try:
+        repo = os.path.join(scr, 'repo')
+        subprocess.run(['rsync', '-a', '--exclude', '.git', '/repo/', repo + '/'], check=True)
+        env = dict(os.environ, GOFLAGS='-mod=mod', GOPROXY='off')
+        for d in harm:
+            name = os.path.basename(d)
+            patch = os.path.join(d, 'patch.diff')
+            if subprocess.run(['git', 'apply', '--check', patch], cwd=repo, capture_output=True).returncode != 0:
+                hres['not_applicable_to_this_tree'].append(name)
+                continue
+            subprocess.run(['git', 'apply', patch], cwd=repo, check=True)
+            sv = os.path.join(scr, 'verif')
+            shutil.rmtree(sv, ignore_errors=True)
+            os.makedirs(os.path.join(sv, 'evidence')); os.makedirs(os.path.join(sv, 'replays'))
+            shutil.copy(os.path.join(verif, 'known-findings.txt'), sv)
+            shutil.copytree(os.path.join(verif, 'notes'), os.path.join(sv, 'notes'))
+            shutil.copy(os.path.join(verif, 'MANIFEST.json'), sv)
+            out = subprocess.run([os.path.join(verif, 'bin', 'govc'), 'check', '-prop', prop, '-tier', 'quick', '-repo', repo, '-verif', sv],
+                                 cwd=repo, env=env, capture_output=True, text=True).stdout
+            subprocess.run(['git', 'apply', '-R', patch], cwd=repo, check=True)
+            hres['refactorings'] += 1
+            if any(l.startswith('VIOLATION') for l in out.splitlines()):
+                hres['false_alarms'].append(name)
+                print('SELFTEST-FALSE-ALARM property=%s refactoring=%s (the check alarms on a behaviour-preserving change)' % (prop, name))
+            else:
+                hres['quiet'] += 1
+    finally:
+        shutil.rmtree(scr, ignore_errors=True)
 ev = os.path.join(verif, 'evidence', prop + '.json')
 if os.path.exists(ev):
     e = json.load(open(ev))
     e.setdefault('coverage', {})['must_fail_selftest'] = res
+    e['coverage']['must_pass_selftest'] = hres
     json.dump(e, open(ev, 'w'), indent=1)
+print('selftest %s: quiet on %d of %d behaviour-preserving refactorings' % (prop, hres['quiet'], hres['refactorings']))
 print('selftest %s: %d of %d seeded changes detected%s' % (prop, res['detected'], res['seeds'],
       ('; not applicable to this tree: ' + ', '.join(res['not_applicable_to_this_tree'])) if res['not_applicable_to_this_tree'] else ''))
